@@ -162,6 +162,7 @@ fn common_probes(a: &Analysis, v: &mut Verdict) {
     let count_ops = |f: &dyn Fn(&Op) -> bool| a.case.ops.iter().filter(|r| f(&r.op) || r.inner.iter().any(|o| f(o))).count() as u64;
     v.probe("fault.cancel_calls", count_ops(&|o| matches!(o, Op::Cancel { .. })));
     v.probe("fault.unwind_through_scope", count_ops(&|o| matches!(o, Op::UnwindScope { .. })));
+    v.probe("swarm_runs", crate::gen::is_swarm(a.case.seed) as u64);
     v.probe("fault.user_code_panics_inside_call", count_ops(&|o| matches!(o, Op::UserPanic { .. })));
     v.probe("prepared_events_recorded_later", count_ops(&|o| matches!(o, Op::AddEventFrom { .. })));
     v.probe("fault.teardown_calls", count_ops(&|o| matches!(o, Op::TeardownCalls { .. })));
